@@ -72,6 +72,8 @@ structure Auth where
   opened : List Nat                -- servers whose xdsChannelConfigs[i].channel != nil
   active : Option Nat              -- activeXDSChannel
   res : List (Key × RState)        -- resources (both map levels flattened), keys unique
+  nobuild : List Nat               -- environment: servers whose transport cannot be created right now
+                                   -- (getChannelForADS / TransportBuilder.Build returns an error)
 deriving Repr
 
 structure Out where
@@ -187,9 +189,10 @@ def propagate (a : Auth) : List Cb :=
 /-- watcherExistsForUncachedResource -/
 def uncachedWatch (a : Auth) : Bool := a.res.any fun p => p.2.status = .requested
 
-/-- the first server after `srv` without a channel (the loop over fallbackToServer) -/
+/-- the loop over fallbackToServer: the first server after `srv` that has no channel yet and whose channel can
+    be created (a server that already has a channel, or whose creation fails, is skipped) -/
 def nextServer (a : Auth) (srv : Nat) : Option Nat :=
-  ((List.range a.n).filter fun i => srv < i && !a.opened.contains i).head?
+  ((List.range a.n).filter fun i => srv < i && !a.opened.contains i && !a.nobuild.contains i).head?
 
 /-- where a failure of `srv` makes the authority fall back to: only a failure of the ACTIVE server may move it
     to a lower-priority server (the check added by /repo 98104fb, before the loop); then the loop over
@@ -264,23 +267,35 @@ def unwatch (a : Auth) (k : Key) (w : Nat) : Out :=
         { auth := { a with res := [], opened := [], active := none }, cmds := cmds ++ a.opened.map Cmd.release }
       else { auth := { a with res := res }, cmds := cmds }
 
-/-- the events the authority's serializer runs -/
+/-- xdsChannelToUse fails: there is no channel yet and the one to the first server cannot be created -/
+def cannotStart (a : Auth) : Bool := a.active.isNone && a.nobuild.contains 0
+
+/-- watchResource, including the early return when xdsChannelToUse fails (the watcher gets the error, nothing
+    is registered) -/
+def watchResource (a : Auth) (k : Key) (w : Nat) : Out :=
+  if cannotStart a then { auth := a, cbs := [⟨w, .resErr .other⟩] } else watch a k w
+
+/-- the events the authority's serializer runs; `env` is not a callback but a change of the environment the
+    callbacks read: which servers' transports cannot be created from now on -/
 inductive AEv
   | update (srv gen : Nat) (typ ver : String) (entries : List (String × Upd))
   | dne (k : Key)
   | failure (srv : Nat) (afterRecv : Bool)
   | watch (k : Key) (w : Nat)
   | unwatch (k : Key) (w : Nat)
+  | env (nobuild : List Nat)
 deriving Repr
 
 def Auth.step (a : Auth) : AEv → Out
   | .update srv _ typ ver entries => handleUpdate a srv typ ver entries
   | .dne k => handleDNE a k
   | .failure srv after => handleFailure a srv after
-  | .watch k w => watch a k w
+  | .watch k w => watchResource a k w
   | .unwatch k w => unwatch a k w
+  | .env l => { auth := { a with nobuild := l } }
 
-def Auth.init (n : Nat) (ign : List Bool) : Auth := { n := n, ign := ign, opened := [], active := none, res := [] }
+def Auth.init (n : Nat) (ign : List Bool) : Auth :=
+  { n := n, ign := ign, opened := [], active := none, res := [], nobuild := [] }
 
 /-- run a whole event history -/
 def Auth.run (a : Auth) : List AEv → Auth
@@ -315,7 +330,9 @@ structure Chan where
   streams : Nat := 0                -- streams created for this server so far
   phase : Phase := .wantStream
   live : Bool := false              -- the current stream is not broken
-  fcPending : Bool := false         -- adsFlowControl.pending
+  refs : List Nat := []             -- channelState.interestedAuthorities (0 = top-level authority, 1 = authority "b")
+  fcWait : List Nat := []           -- authorities that have not yet reported the last update as processed
+                                    -- (adsFlowControl.pending = this is non-empty)
   msgRecv : Bool := false
   inbox : List Resp := []
   subs : List (Key × WS) := []      -- subscribedResources of all types
@@ -323,8 +340,15 @@ structure Chan where
   view : List (String × List String) := []   -- names of the last request per type on the current stream
 deriving Repr
 
+def Chan.fcPending (c : Chan) : Bool := !c.fcWait.isEmpty
+
+/-- The client: the top-level authority (old-style resource names) and one more authority "b" (names `b_…`,
+    i.e. xdstp://b/…) with the same server list, so that the two share every xdsChannel they both use; the
+    channels are owned by the client and closed when the last authority releases them. `held`/`queue` belong to
+    the top-level authority's serializer. -/
 structure Sys where
   auth : Auth
+  authB : Auth
   chans : List Chan
   up : List Bool
   now : Nat := 0
@@ -333,6 +357,7 @@ structure Sys where
   watches : List (Nat × Key) := []
   cbs : List Cb := []
   closed : Bool := false
+  nobuildSrv : List Nat := []       -- servers for which TransportBuilder.Build fails right now
 deriving Repr
 
 def insertSorted (x : String) : List String → List String
@@ -378,31 +403,49 @@ def chanUnsub (c : Chan) (now : Nat) (k : Key) : Chan :=
 def getChan (s : Sys) (i : Nat) : Chan := s.chans.getD i {}
 def setChan (s : Sys) (i : Nat) (c : Chan) : Sys := { s with chans := s.chans.set i c }
 
-def applyCmd (s : Sys) : Cmd → Sys
+def getAuth (s : Sys) (x : Nat) : Auth := if x = 0 then s.auth else s.authB
+def setAuth (s : Sys) (x : Nat) (a : Auth) : Sys := if x = 0 then { s with auth := a } else { s with authB := a }
+
+/-- which authority a resource name belongs to (XDSClient.getAuthorityForResource) -/
+def ownerOf (k : Key) : Nat := if k.name.startsWith "b_" then 1 else 0
+
+/-- a command of authority `x` (getChannelForADS / the release function / subscribe / unsubscribe) -/
+def applyCmd (x : Nat) (s : Sys) : Cmd → Sys
   | .build i =>
     let c := getChan s i
-    setChan s i { opened := true, gen := c.gen + 1, streams := c.streams, phase := .wantStream }
+    if c.opened then setChan s i { c with refs := if c.refs.contains x then c.refs else c.refs ++ [x] }
+    else setChan s i { opened := true, gen := c.gen + 1, streams := c.streams, phase := .wantStream, refs := [x] }
   | .release i =>
     let c := getChan s i
-    setChan s i { opened := false, gen := c.gen, streams := c.streams }
+    let refs := c.refs.filter (· ≠ x)
+    if refs.isEmpty then setChan s i { opened := false, gen := c.gen, streams := c.streams }   -- last reference: closed
+    else setChan s i { c with refs := refs }
   | .sub i k => setChan s i (chanSub (getChan s i) s.now k)
   | .unsub i k => setChan s i (chanUnsub (getChan s i) s.now k)
 
-def applyCmds (s : Sys) (cmds : List Cmd) : Sys := cmds.foldl applyCmd s
+def applyCmds (x : Nat) (s : Sys) (cmds : List Cmd) : Sys := cmds.foldl (applyCmd x) s
 
-/-- the authority's serializer runs one event -/
-def processEv (s : Sys) (e : AEv) : Sys :=
-  let o := s.auth.step e
-  let s := applyCmds { s with auth := o.auth, cbs := s.cbs ++ o.cbs } o.cmds
+/-- the serializer of authority `x` runs one event -/
+def processEv (x : Nat) (s : Sys) (e : AEv) : Sys :=
+  -- getChannelForADS fails for a server iff its transport cannot be built AND the client has no channel to it
+  -- yet (an existing channel is shared without building anything): the authority's environment for this step
+  let a0 := ((getAuth s x).step (.env (s.nobuildSrv.filter fun i => !(getChan s i).opened))).auth
+  let o := a0.step e
+  let s := setAuth s x o.auth
+  let s := applyCmds x { s with cbs := s.cbs ++ o.cbs } o.cmds
   match e with
   | .update srv gen _ _ _ =>
     let c := getChan s srv
-    if o.done ∧ c.opened ∧ c.gen = gen then setChan s srv { c with fcPending := false } else s
+    if o.done ∧ c.opened ∧ c.gen = gen then setChan s srv { c with fcWait := c.fcWait.filter (· ≠ x) } else s
   | _ => s
 
-/-- an event reaches the authority's serializer -/
-def emit (s : Sys) (e : AEv) : Sys :=
-  if s.held then { s with queue := s.queue ++ [e] } else processEv s e
+/-- an event reaches the serializer of authority `x` -/
+def emitTo (x : Nat) (s : Sys) (e : AEv) : Sys :=
+  if x = 0 ∧ s.held then { s with queue := s.queue ++ [e] } else processEv x s e
+
+/-- channelState forwards an event of channel `i` to every interested authority -/
+def emit (s : Sys) (i : Nat) (e : AEv) : Sys :=
+  (getChan s i).refs.foldl (fun s x => emitTo x s e) s
 
 /-- the runner's NewStream call is granted -/
 def grantNewStream (s : Sys) (i : Nat) : Sys :=
@@ -413,7 +456,7 @@ def grantNewStream (s : Sys) (i : Nat) : Sys :=
     setChan s i c
   else
     let s := setChan s i { c with subs := resetTimers c.subs, phase := .backoff (s.now + backoffMs) }
-    emit s (.failure i false)
+    emit s i (.failure i false)
 
 /-- the reader's Recv call is granted: the stream error, or the next message -/
 def grantRecv (s : Sys) (i : Nat) : Sys :=
@@ -421,13 +464,13 @@ def grantRecv (s : Sys) (i : Nat) : Sys :=
   if !c.live then
     let s := setChan s i { c with subs := resetTimers c.subs,
                                   phase := if c.msgRecv then .wantStream else .backoff (s.now + backoffMs) }
-    emit s (.failure i c.msgRecv)
+    emit s i (.failure i c.msgRecv)
   else match c.inbox with
     | [] => s
     | m :: rest =>
       let gen0 := c.gen
-      let s := setChan s i { c with inbox := rest, msgRecv := true, fcPending := true }
-      let s := emit s (.update i gen0 m.typ m.ver m.entries)
+      let s := setChan s i { c with inbox := rest, msgRecv := true, fcWait := c.refs }
+      let s := emit s i (.update i gen0 m.typ m.ver m.entries)
       -- onRecv: mark the received names, send the ACK/NACK listing the current subscriptions
       let c := getChan s i
       if c.opened ∧ c.gen = gen0 ∧ c.types.contains m.typ then
@@ -489,7 +532,7 @@ def fireAt (s : Sys) (t : Nat) : Sys :=
     due.foldl (fun s k =>
       let c := getChan s i
       let s := setChan s i { c with subs := c.subs.map fun p => if p.1 = k then (p.1, WS.timeout) else p }
-      emit s (.dne k)) s) s
+      emit s i (.dne k)) s) s
   -- retry timers
   let s := (List.range s.chans.length).foldl (fun s i =>
     let c := getChan s i
@@ -514,11 +557,12 @@ inductive Op
   | down (srv : Nat) | up (srv : Nat)
   | sleep (ms : Nat)
   | hold | release
+  | nobuild (l : List Nat)
   | close
 deriving Repr
 
 def Sys.init (n : Nat) (ign : List Bool) : Sys :=
-  { auth := Auth.init n ign, chans := List.replicate n {}, up := List.replicate n true }
+  { auth := Auth.init n ign, authB := Auth.init n ign, chans := List.replicate n {}, up := List.replicate n true }
 
 /-- result tag of an op that does not produce a snapshot -/
 inductive Res | snap | tag (s : String)
@@ -532,19 +576,21 @@ def step (s : Sys) (op : Op) : Sys × Res :=
   let s := { s with cbs := [] }
   match op with
   | .watch typ name w =>
-    if s.held then (s, .tag "held")
+    let k : Key := ⟨typ, name⟩
+    let x := ownerOf k
+    if x = 0 ∧ s.held then (s, .tag "held")
     else if s.watches.any (·.1 = w) then (s, .tag "busy")
     else if typ ≠ "T" ∧ typ ≠ "U" then ({ s with cbs := [⟨w, .resErr .other⟩] }, .snap)
     else
-      let k : Key := ⟨typ, name⟩
-      let s := processEv { s with watches := s.watches ++ [(w, k)] } (.watch k w)
+      let s := processEv x { s with watches := s.watches ++ [(w, k)] } (.watch k w)
       (pump 256 s, .snap)
   | .unwatch w =>
-    if s.held then (s, .tag "held")
-    else match s.watches.find? (·.1 = w) with
+    match s.watches.find? (·.1 = w) with
       | none => (s, .tag "nowatch")
       | some (_, k) =>
-        let s := processEv { s with watches := s.watches.filter (·.1 ≠ w) } (.unwatch k w)
+        let x := ownerOf k
+        if x = 0 ∧ s.held then (s, .tag "held") else
+        let s := processEv x { s with watches := s.watches.filter (·.1 ≠ w) } (.unwatch k w)
         (pump 256 s, .snap)
   | .respond i r =>
     if !hasLive s i then (s, .tag "nostream")
@@ -564,8 +610,9 @@ def step (s : Sys) (op : Op) : Sys × Res :=
     if !s.held then (s, .tag "nothold")
     else
       let q := s.queue
-      let s := q.foldl processEv { s with held := false, queue := [] }
+      let s := q.foldl (processEv 0) { s with held := false, queue := [] }
       (pump 256 s, .snap)
+  | .nobuild l => ({ s with nobuildSrv := l }, .snap)
   | .close => ({ s with closed := true }, .tag "closed")
 
 end GrpcModel.XdsAuth
